@@ -31,7 +31,8 @@ PROPS["C04"] = prop(
     "unsubscribing drops the user's deletion log). Permissions are read from the store rows before the step and judged only where the loaded topic's cache agrees "
     "(permObs.agreed; a delete accepted under disagreement stops the judging of that topic). Root/obo requests are not generated.",
     "5/C04", "types-pure+world",
-    [Unit("TestC04Normalize", "server/store/types", quick=50000, thorough=1000000, shards_quick=4, shards_thorough=16, fuzz="FuzzC04Normalize", fuzztime=60),
+    [Unit("TestC04PublishedTimestamps", "server", quick=600, thorough=20000, shards_quick=4, shards_thorough=16, timeout_quick=300),
+     Unit("TestC04Normalize", "server/store/types", quick=50000, thorough=1000000, shards_quick=4, shards_thorough=16, fuzz="FuzzC04Normalize", fuzztime=60),
      Unit("TestC04History", "server", quick=1500, thorough=80000, shards_quick=8, shards_thorough=16, timeout_quick=400),
      Unit("TestC04SqlMySQL", "server/db/mysql", quick=1500, thorough=40000, shards_quick=2, shards_thorough=8, tags="mysql"),
      Unit("TestC04SqlPG", "server/db/postgres", quick=1500, thorough=40000, shards_quick=2, shards_thorough=8, tags="postgres")],
